@@ -148,6 +148,12 @@ def p1(ck: Check) -> None:
                 and tgt.attr != "node_indices":
             probs.append(f"line {n.lineno}: the restored `{tgt.attr}` is modified after it was restored: the unpickled diagram "
                          f"no longer has the state that was saved")
+    # ... nor into the node data of the restored graph (reached through node_data(..) / dag.nodes[..])
+    for g_ in (gs, ss):
+        for e_ in g_.field_events():
+            if e_.kind in ("store", "create"):
+                probs.append(f"line {e_.stmt.lineno}: {g_.f.name} writes the node field `{e_.field}`: what is saved / loaded is no "
+                             f"longer the diagram's state (known attractor data must survive the round trip)")
     ck.ob("P1", ss, ss.f.node, not probs, "; ".join(probs) if probs else "every persisted slot restored from its own key",
           key="restore sources")
 
@@ -632,6 +638,43 @@ def p6(ck: Check, acc: dict[str, str]) -> None:
                   f"`{e.field}` is given the value `{text(e.value)[:50]}` outside its accessor {acc.get(e.field, '?')}: after "
                   f"reclaim_node_data the accessor recomputes a value of its own, so a reclaimed diagram can answer differently "
                   f"from an untouched one", key=f"{e.field} stored in {fm.f.name}")
+    # ... and the object an accessor hands out *is* the cached object: changing it in place changes the cache behind the
+    # accessor's back (after a reclaim the accessor recomputes the unmodified value)
+    accessors = {q.split(".")[-1]: fld for fld, q in acc.items() if fld in cleared}
+    mut = {"append", "extend", "insert", "remove", "pop", "clear", "sort", "reverse", "add", "discard", "update", "setdefault",
+           "popitem", "remove_node", "remove_nodes_from", "remove_edge", "remove_edges_from", "add_node", "add_edge",
+           "add_nodes_from", "add_edges_from", "set_update_function", "set_variable_name", "difference_update", "intersection_update"}
+    n_acc = 0
+    for fm in prog.models():
+        for a_ in own_walk(fm.f.node):
+            if not (isinstance(a_, ast.Assign) and len(a_.targets) == 1 and isinstance(a_.targets[0], ast.Name)
+                    and isinstance(a_.value, ast.Call) and callee_name(a_.value) in accessors):
+                continue
+            n_acc += 1
+            v_ = a_.targets[0].id
+            an_ = fm.cfgn(a_)
+            bad = []
+            for x_ in own_walk(fm.f.node):
+                tgt_ = None
+                if isinstance(x_, ast.AugAssign) and isinstance(x_.target, ast.Name) and x_.target.id == v_:
+                    tgt_ = x_
+                elif isinstance(x_, ast.Call) and isinstance(x_.func, ast.Attribute) and isinstance(x_.func.value, ast.Name) \
+                        and x_.func.value.id == v_ and x_.func.attr in mut:
+                    tgt_ = x_
+                elif isinstance(x_, (ast.Subscript,)) and isinstance(x_.ctx, (ast.Store, ast.Del)) and isinstance(x_.value, ast.Name) \
+                        and x_.value.id == v_:
+                    tgt_ = x_
+                if tgt_ is not None:
+                    try:
+                        xn_ = fm.cfgn(tgt_)
+                    except AnalysisError:
+                        continue
+                    if any(d_.id == an_.id for d_ in fm.cfg.reaching_defs(v_, xn_)):
+                        bad.append(tgt_.lineno)
+            ck.ob("P6", fm, a_, not bad, f"result of {callee_name(a_.value)} only read" if not bad else
+                  f"`{v_}` is the object cached in `{accessors[callee_name(a_.value)]}` (the accessor returns the stored object); it is "
+                  f"changed in place at line(s) {sorted(set(bad))}: later queries see the changed value, a reclaimed diagram the "
+                  f"recomputed one", key=f"{callee_name(a_.value)} result in {fm.f.name}")
     for k in PRESENCE_NEUTRAL:
         if k not in used:
             ck.note(f"P6: reviewed exception {k} no longer occurs")
